@@ -37,6 +37,7 @@ type hCall struct {
 	ReenterJSON bool // ... as a JSON output with default options (ReenterSame: of the tree being walked, whatever its branch strings)
 	AddLate  bool // walks (callback form): at its second visit the callback adds the node Name under the root of the tree being walked
 	Model *MNode // op: clone of the tree's model at call time (what the result must be a function of)
+	Redo  bool   // mkdir: the caller removes the target directory's content after the call and makes the same call again; the result is that of the second call
 	Share *MNode // verify: not nil = the call verifies against the history's one shared directory, which holds exactly this tree
 	// results
 	Res *opResult
@@ -57,6 +58,9 @@ func (h hCall) String() string {
 		}
 		if h.AddLate {
 			extra = fmt.Sprintf(" (at its second visit the callback does t%d.Add(%q))", h.Tree, h.Name)
+		}
+		if h.Redo {
+			extra += " (then the caller empties the target directory and makes the same call again)"
 		}
 		if h.Share != nil {
 			extra += " (against the directory shared by all such calls, which holds " + modelStr(h.Share) + ")"
@@ -257,7 +261,7 @@ func execCall(h *hCall, root *gtree.Node, jail string, idx int, yield bool, rw *
 	if rw != nil {
 		rw.byTask[taskID] = wr
 	}
-	func() {
+	call := func() {
 		defer func() {
 			if p := recover(); p != nil {
 				res.Panic = fmt.Sprint(p)
@@ -281,7 +285,15 @@ func execCall(h *hCall, root *gtree.Node, jail string, idx int, yield bool, rw *
 			err = invoke(op, wr, rd, root, cb, opts)
 		}
 		res.Err = normErr(err, target)
-	}()
+	}
+	call()
+	if h.Redo && target != "" && res.Panic == "" {
+		// the caller removes what the call created and calls again with the same target: the
+		// second call gives what a first call gives
+		os.RemoveAll(target)
+		os.MkdirAll(target, 0o755)
+		call()
+	}
 	if !yield && h.Op.Massive {
 		settleGoroutines()
 	}
@@ -616,6 +628,10 @@ func genHistory(c *Ctx, o histOpts) (calls []*hCall, nTasks int, nontrivial bool
 			h := &hCall{Kind: "op", Task: t.owner, Tree: ti, Op: op, Model: t.model.Clone(), ShareOpt: op.Massive && !op.NilCtx && c.Draw(2) == 0}
 			if op.Kind == "verify" {
 				h.Prep = []string{"exact", "empty"}[c.Draw(2)]
+			}
+			if op.Kind == "mkdir" && !op.DryRun && c.Chance(1, 3) {
+				h.Redo = true
+				c.st.Count("history.mkdir-removed-and-made-again")
 			}
 			if (op.Kind == "walk" || op.Kind == "walkiter") && !op.Massive && c.Chance(1, 4) {
 				h.Reenter = true
